@@ -152,9 +152,8 @@ def run_case(case, rep_):
         if is_cp:
             reps["kraus_from_choi"] = qutip.to_kraus(reps["choi"])
             reps["kraus_from_super"] = qutip.to_kraus(reps["super"])
-        if case["in"] == case["out"]:        # the Stinespring construction of the library is for maps on one space
-            A, B = qutip.to_stinespring(reps["choi"])
-            reps["stinespring"] = (A, B)
+        A, B = qutip.to_stinespring(reps["choi"])
+        reps["stinespring"] = (A, B)
     except core.CaseTimeout:
         raise
     except Exception as e:
@@ -170,6 +169,9 @@ def run_case(case, rep_):
     for name, obj in reps.items():
         if name == "stinespring":
             A, B = obj
+            for nm_, P_ in (("A", A), ("B", B)):
+                if P_.dims[1] != case["in"] or P_.dims[0][:len(case["out"])] != case["out"] or len(P_.dims[0]) != len(case["out"]) + 1:
+                    V("dims:stinespring", f"Stinespring operator {nm_} labelled {P_.dims} for a map {case['in']} -> {case['out']}")
             for X in basis:
                 # Lambda(X) = Tr_env[A (X) B^dag]
                 Xq = qutip.Qobj(X, dims=[case["in"], case["in"]])
